@@ -46,6 +46,36 @@ theorem exclusive_sections (methods : List (List Ev)) (hwl : ∀ es ∈ methods,
     have := (inv.wmode j tj hj).mp hm
     rw [hwi] at this; simp only [Option.some.injEq] at this; exact absurd this hij
 
+/-- (5) Isolation of exclusive sections: while a thread holds the exclusive lock, no OTHER thread is
+    about to read or write ANY guarded field (not only the same one). -/
+theorem exclusive_isolation (methods : List (List Ev)) (hwl : ∀ es ∈ methods, wellLocked es = true)
+    (c : Config) (hr : Reachable (initial methods) c) (i j : Nat) (ti tj : Thread) (hij : i ≠ j)
+    (hi : c.threads[i]? = some ti) (hj : c.threads[j]? = some tj) (hw : ti.mode = .w)
+    (e : Ev) (es : List Ev) (hnext : tj.rest = e :: es) : ∀ f, e ≠ .read f ∧ e ≠ .write f := by
+  have inv := reachable_inv _ c (initial_inv methods hwl) hr
+  have hnone := exclusive_sections methods hwl c hr i j ti tj hij hi hj hw
+  have hwlj := inv.wl j tj hj
+  rw [hnext, hnone] at hwlj
+  intro f
+  constructor
+  · rintro rfl; have := (mode_of_read _ _ _ hwlj).1; simp at this
+  · rintro rfl; have := (mode_of_write _ _ _ hwlj).1; simp at this
+
+/-- (6) Stability of shared sections: while some thread holds the lock shared, NO thread (itself
+    included) is about to write any guarded field. -/
+theorem shared_isolation (methods : List (List Ev)) (hwl : ∀ es ∈ methods, wellLocked es = true)
+    (c : Config) (hr : Reachable (initial methods) c) (i j : Nat) (ti tj : Thread)
+    (hi : c.threads[i]? = some ti) (hj : c.threads[j]? = some tj) (hrd : ti.mode = .r)
+    (f : Nat) (es : List Ev) : tj.rest ≠ .write f :: es := by
+  have inv := reachable_inv _ c (initial_inv methods hwl) hr
+  intro hnext
+  have hwlj := inv.wl j tj hj
+  rw [hnext] at hwlj
+  have hwj := (mode_of_write _ _ _ hwlj).1
+  have hwr := (inv.wmode j tj hj).mp hwj
+  have hri := (inv.rmode i ti hi).mp hrd
+  rw [inv.excl (by simp [hwr])] at hri
+  cases hri
 /-- Non-vacuity: the extracted methods themselves satisfy the premise of (2)–(4). -/
 example : ∀ es ∈ Car.Facts.lockTable.map (·.2), wellLocked es = true := by
   intro es hes
